@@ -10,7 +10,7 @@ use serde_json::Value;
 pub static ENGINE: Engine = Engine {
     prop: "C03",
     level: "model_checking",
-    rule: "state-space closure through BDDEnv<usize>: states = Boolean functions over k ordered variables with non-adjacent ids, held as the diagrams the engine itself produced; BFS from {true,false,var(s)} under not/and/or/implies/eq/xor/nor/nand until a round adds nothing (must reach all 2^(2^k)); then EVERY operator on EVERY operand tuple (k=2 and k=3 complete for unary and binary, ite complete for k=2 and with the condition restricted to constants/variables for k=3 in quick, complete 256^3 in thorough); plus F_4 x basis sweeps. Oracle: truth table of the result = pointwise operation of the operand tables, operands structurally unchanged. distinct = distinct (operator, operand tuple)",
+    rule: "state-space closure through BDDEnv<usize>: states = Boolean functions over k ordered variables with non-adjacent ids, held as the diagrams the engine itself produced; BFS from {true,false,var(s)} under not/and/or/implies/eq/xor/nor/nand until a round adds nothing (must reach all 2^(2^k)); then EVERY operator on EVERY operand tuple (k=2 and k=3 complete for unary and binary, ite complete for k=2 and with the condition restricted to constants/variables for k=3 in quick, complete 256^3 in thorough); plus the same sweep with operands that were never interned in the operating environment (plain diagrams as obtained from BDD::from or another environment), F_4 x basis sweeps and a 185-member family over 6 variables. Oracle: truth table of the result = pointwise operation of the operand tables, operands structurally unchanged. distinct = distinct (operator, operand tuple)",
     assumptions: &["truth tables are read by an independent walker that addresses variables by symbol", "k <= 4 variables (small scope in the number of variables; closure argument of DESIGN.md §1 makes depth unbounded)"],
     max_shards: 64,
     run,
@@ -87,11 +87,19 @@ fn run(ctx: &mut Ctx) {
         }
         sweep_api(ctx, &sp, "closure", ORACLE, ite, TAG);
     }
+    // operands that were never interned in the environment that operates on them
+    let spf = Space::<usize>::by_foreign(&[1, 4, 6]);
+    sweep_api(ctx, &spf, "foreign", ORACLE, IteMode::CondInit, TAG);
     f4_sweep(ctx, ORACLE, TAG);
+    sweep_family6(ctx, ORACLE, TAG);
     let s4 = ctx.globals.get("states_k4").copied().unwrap_or(0);
     ctx.global("states", states + s4);
 }
 
 fn replay(ctx: &mut Ctx, case: &Value) {
+    if case["part"].as_str() == Some("family6") {
+        replay_family6(ctx, case, ORACLE, TAG);
+        return;
+    }
     replay_api(ctx, case, ORACLE, TAG);
 }
